@@ -89,7 +89,8 @@ class Contract:
         # raises: list of (ExcClass, when_fn or None, iff)
         self.raises = [(e, _plain(w), iff) for (e, w, iff) in getattr(cls, 'raises', [])]
         self.canaries = list(getattr(cls, 'canaries', []))
-        self.cases = getattr(cls, 'cases', None)
+        self.cases = getattr(cls, 'cases', None)      # list of (label, condition function over the arguments)
+        self.case_chunk = getattr(cls, 'case_chunk', 1)
         self.options = dict(getattr(cls, 'options', {}))
         self.witness = _plain(getattr(cls, 'witness', None))
         self.func = getattr(cls, 'func', None)        # optional explicit function object getter
